@@ -27,6 +27,7 @@ def generators():
     try:
         from . import facts
         gens['Forwarding'] = facts.generate_forwarding
+        gens['Catalogue'] = facts.generate_catalogue
     except ImportError:
         pass
     try:
